@@ -3,15 +3,21 @@
 
 Every constant the Lean model uses is read from the Rust source on every run, so the
 theorems are re-checked against what the code says now.  If a constant cannot be found
-the generator fails loudly (exit 2): that is a broken tie, never guessed around.
+a PLACEHOLDER of the right type is emitted (0 / [] / false), the name is listed in
+`Gen.missingConstants`, and the generator exits 3 after writing the file: every theorem that depends
+on that constant's value (each property has a `Cxx_constants` theorem) then fails to check, and the
+model driver disagrees with the implementation wherever the constant matters — a broken tie for
+exactly the properties that depend on it, never guessed around, and no alarm for the others.
 
 Usage: gen_constants.py <repo> <out.lean>     (writes only when the content changed)
 """
 import re, sys, os
 
+class Missing(Exception):
+    pass
+
 def die(msg):
-    print("gen_constants: BROKEN TIE: " + msg, file=sys.stderr)
-    sys.exit(2)
+    raise Missing(msg)
 
 def strip_comments(src):
     src = re.sub(r'/\*.*?\*/', '', src, flags=re.S)
@@ -75,133 +81,239 @@ class Consts:
         self.vals[name] = v
         return v
 
+def fn_body(src, name, what):
+    m = re.search(r'fn\s+' + name + r'\s*(?:<[^>]*>)?\s*\(', src)
+    if not m:
+        die("function %s not found in %s" % (name, what))
+    i = src.index('{', m.end())
+    depth = 0
+    for j in range(i, len(src)):
+        if src[j] == '{': depth += 1
+        elif src[j] == '}':
+            depth -= 1
+            if depth == 0:
+                return src[i:j + 1]
+    die("unbalanced braces in %s" % name)
+
+def split_args(call_src, start):
+    """argument text of the call whose '(' is at `start`"""
+    depth = 0
+    for j in range(start, len(call_src)):
+        if call_src[j] in '([{': depth += 1
+        elif call_src[j] in ')]}':
+            depth -= 1
+            if depth == 0:
+                return call_src[start + 1:j], j
+    return None, None
+
+def hash_layout(src, name, what):
+    """the sequence of byte strings fed to each hash object in function `name`, in source order:
+    one list per `Sha1::new()` / `Hmac::new_from_slice(..)` / `Context::new()` object"""
+    body = fn_body(src, name, what)
+    groups = []
+    pos = 0
+    pat = re.compile(r'(Sha1::new\(\)|new_from_slice\s*\(|Context::new\(\))|(?:\.chain_update|\.update|\.consume)\s*\(')
+    while True:
+        m = pat.search(body, pos)
+        if not m:
+            break
+        if m.group(1):
+            if m.group(1).startswith('new_from_slice'):
+                arg, end = split_args(body, m.end() - 1)
+                groups.append(["key:" + re.sub(r'\s+', '', arg)])
+                pos = end
+            else:
+                groups.append([])
+                pos = m.end()
+            continue
+        arg, end = split_args(body, m.end() - 1)
+        if not groups:
+            groups.append([])
+        groups[-1].append(re.sub(r'\s+', '', arg).lstrip('&'))
+        pos = end
+    return groups
+
+def lean_str(x):
+    return '"' + x.replace('\\', '\\\\').replace('"', '\\"') + '"'
+
 def lean_bytes(xs):
     return "[" + ", ".join("0x%02x" % x for x in xs) + "]"
 
 def main():
     repo, out = sys.argv[1], sys.argv[2]
     c = Consts()
-    L = []  # (name, leantype, value, origin)
-    def emit_nat(name, v, origin):
-        L.append("/-- %s -/\ndef %s : Nat := %d" % (origin, name, v))
-    def emit_bytes(name, v, origin):
-        L.append("/-- %s -/\ndef %s : List UInt8 := %s" % (origin, name, lean_bytes(v)))
-    def emit_bool(name, v, origin):
-        L.append("/-- %s -/\ndef %s : Bool := %s" % (origin, name, "true" if v else "false"))
+    L = []
+    missing = []
+    def put(kind, name, thunk, origin):
+        try:
+            v = thunk()
+        except Missing as e:
+            missing.append("%s: %s" % (name, e))
+            origin = "NOT FOUND IN THE SOURCE (placeholder): " + str(e)
+            v = {"nat": 0, "bytes": [], "bool": False, "layout": []}[kind]
+        if kind == "nat":
+            L.append("/-- %s -/\ndef %s : Nat := %d" % (origin, name, v))
+        elif kind == "bytes":
+            L.append("/-- %s -/\ndef %s : List UInt8 := %s" % (origin, name, lean_bytes(v)))
+        elif kind == "bool":
+            L.append("/-- %s -/\ndef %s : Bool := %s" % (origin, name, "true" if v else "false"))
+        else:
+            L.append("/-- %s -/\ndef %s : List (List String) := [%s]" % (origin, name,
+                     ", ".join("[" + ", ".join(lean_str(a) for a in grp) + "]" for grp in v)))
+    def src(rel):
+        try:
+            return load(repo, rel)
+        except Missing:
+            return ""
+    def rx(pattern, text, what, conv=parse_int, flags=0):
+        m = re.search(pattern, text, flags)
+        if not m:
+            die(what + " not found")
+        return conv(m.group(1))
 
-    primes = load(repo, "src/primes.rs")
-    emit_nat("largeSafePrimeLength", c.scalar(primes, "LARGE_SAFE_PRIME_LENGTH", "primes.rs"), "primes.rs LARGE_SAFE_PRIME_LENGTH")
-    emit_bytes("largeSafePrimeBE", find_array(primes, "LARGE_SAFE_PRIME_BIG_ENDIAN", "primes.rs"), "primes.rs LARGE_SAFE_PRIME_BIG_ENDIAN")
-    emit_bytes("largeSafePrimeLE", find_array(primes, "LARGE_SAFE_PRIME_LITTLE_ENDIAN", "primes.rs"), "primes.rs LARGE_SAFE_PRIME_LITTLE_ENDIAN")
-    emit_nat("generator", c.scalar(primes, "GENERATOR", "primes.rs"), "primes.rs GENERATOR")
-    emit_nat("generatorLength", c.scalar(primes, "GENERATOR_LENGTH", "primes.rs"), "primes.rs GENERATOR_LENGTH")
-    emit_nat("kValue", c.scalar(primes, "K_VALUE", "primes.rs"), "primes.rs K_VALUE")
-    m = re.search(r'impl\s+Default\s+for\s+LargeSafePrime\s*\{.*?prime\s*:\s*(\w+)', primes, flags=re.S)
-    if not m: die("Default for LargeSafePrime not found")
-    emit_bool("defaultPrimeIsLE", m.group(1) == "LARGE_SAFE_PRIME_LITTLE_ENDIAN", "primes.rs: LargeSafePrime::default() uses LARGE_SAFE_PRIME_LITTLE_ENDIAN")
-    m = re.search(r'impl\s+Default\s+for\s+Generator\s*\{.*?generator\s*:\s*(\w+)', primes, flags=re.S)
-    if not m: die("Default for Generator not found")
-    emit_bool("defaultGeneratorIsG", m.group(1) == "GENERATOR", "primes.rs: Generator::default() uses GENERATOR")
+    primes = src("src/primes.rs")
+    put("nat", "largeSafePrimeLength", lambda: c.scalar(primes, "LARGE_SAFE_PRIME_LENGTH", "primes.rs"), "primes.rs LARGE_SAFE_PRIME_LENGTH")
+    put("bytes", "largeSafePrimeBE", lambda: find_array(primes, "LARGE_SAFE_PRIME_BIG_ENDIAN", "primes.rs"), "primes.rs LARGE_SAFE_PRIME_BIG_ENDIAN")
+    put("bytes", "largeSafePrimeLE", lambda: find_array(primes, "LARGE_SAFE_PRIME_LITTLE_ENDIAN", "primes.rs"), "primes.rs LARGE_SAFE_PRIME_LITTLE_ENDIAN")
+    put("nat", "generator", lambda: c.scalar(primes, "GENERATOR", "primes.rs"), "primes.rs GENERATOR")
+    put("nat", "generatorLength", lambda: c.scalar(primes, "GENERATOR_LENGTH", "primes.rs"), "primes.rs GENERATOR_LENGTH")
+    put("nat", "kValue", lambda: c.scalar(primes, "K_VALUE", "primes.rs"), "primes.rs K_VALUE")
+    put("bool", "defaultPrimeIsLE", lambda: rx(r'impl\s+Default\s+for\s+LargeSafePrime\s*\{.*?prime\s*:\s*(\w+)', primes, "Default for LargeSafePrime", str, re.S) == "LARGE_SAFE_PRIME_LITTLE_ENDIAN",
+        "primes.rs: LargeSafePrime::default() uses LARGE_SAFE_PRIME_LITTLE_ENDIAN")
+    put("bool", "defaultGeneratorIsG", lambda: rx(r'impl\s+Default\s+for\s+Generator\s*\{.*?generator\s*:\s*(\w+)', primes, "Default for Generator", str, re.S) == "GENERATOR",
+        "primes.rs: Generator::default() uses GENERATOR")
+    # `LargeSafePrime::to_bigint` must convert the prime it holds (self.prime), with no other state
+    put("bool", "primeToBigintIsPure", lambda: re.sub(r'\s+', '', fn_body(primes[primes.find("impl LargeSafePrime"):], "to_bigint", "primes.rs")) == "{bigint::Integer::from_bytes_le(&self.prime)}",
+        "primes.rs: LargeSafePrime::to_bigint is exactly `bigint::Integer::from_bytes_le(&self.prime)`")
 
-    key = load(repo, "src/key.rs")
+    key = src("src/key.rs")
     for rn, ln in [("SALT_LENGTH", "saltLength"), ("PRIVATE_KEY_LENGTH", "privateKeyLength"),
                    ("PUBLIC_KEY_LENGTH", "publicKeyLength"), ("SHA1_HASH_LENGTH", "sha1HashLength"),
                    ("PASSWORD_VERIFIER_LENGTH", "passwordVerifierLength"), ("PROOF_LENGTH", "proofLength"),
                    ("S_LENGTH", "sLength"), ("RECONNECT_CHALLENGE_DATA_LENGTH", "reconnectDataLength"),
                    ("SESSION_KEY_LENGTH", "sessionKeyLength")]:
-        emit_nat(ln, c.scalar(key, rn, "key.rs"), "key.rs " + rn)
+        put("nat", ln, lambda rn=rn: c.scalar(key, rn, "key.rs"), "key.rs " + rn)
+    # the proof/key wrappers must compare by derived (whole-array) equality
+    put("bool", "keyWrapperDerivesEq", lambda: rx(r'macro_rules!\s*key_wrapper\s*\{.*?#\[derive\(([^)]*)\)\]\s*pub\s+struct\s+\$name', key, "derive list of key_wrapper!", lambda t: "PartialEq" in t and "Eq" in t, re.S),
+        "key.rs: key_wrapper! structs #[derive(PartialEq, Eq)] (whole-array equality)")
 
-    srpi = load(repo, "src/srp_internal.rs")
-    emit_bytes("precalculatedXorHash", find_array(srpi, "PRECALCULATED_XOR_HASH", "srp_internal.rs"), "srp_internal.rs PRECALCULATED_XOR_HASH")
+    srpi = src("src/srp_internal.rs")
+    put("bytes", "precalculatedXorHash", lambda: find_array(srpi, "PRECALCULATED_XOR_HASH", "srp_internal.rs"), "srp_internal.rs PRECALCULATED_XOR_HASH")
 
-    ns = load(repo, "src/normalized_string.rs")
-    emit_nat("maximumStringLength", c.scalar(ns, "MAXIMUM_STRING_LENGTH_IN_BYTES", "normalized_string.rs"), "normalized_string.rs MAXIMUM_STRING_LENGTH_IN_BYTES")
+    ns = src("src/normalized_string.rs")
+    put("nat", "maximumStringLength", lambda: c.scalar(ns, "MAXIMUM_STRING_LENGTH_IN_BYTES", "normalized_string.rs"), "normalized_string.rs MAXIMUM_STRING_LENGTH_IN_BYTES")
 
-    lib = load(repo, "src/lib.rs")
-    emit_nat("integritySaltLength", c.scalar(lib, "INTEGRITY_SALT_LENGTH", "lib.rs"), "lib.rs INTEGRITY_SALT_LENGTH")
-    emit_bool("forbidUnsafe", re.search(r'#!\[forbid\(unsafe_code\)\]', lib) is not None, "lib.rs has #![forbid(unsafe_code)]")
+    lib = src("src/lib.rs")
+    put("nat", "integritySaltLength", lambda: c.scalar(lib, "INTEGRITY_SALT_LENGTH", "lib.rs"), "lib.rs INTEGRITY_SALT_LENGTH")
+    put("bool", "forbidUnsafe", lambda: re.search(r'#!\[forbid\(unsafe_code\)\]', lib) is not None, "lib.rs has #![forbid(unsafe_code)]")
 
-    tbe = load(repo, "src/tbc_header/encrypt.rs")
-    tbd = load(repo, "src/tbc_header/decrypt.rs")
-    emit_bytes("tbcSeedEnc", find_let_array(tbe, "s", "tbc_header/encrypt.rs"), "tbc_header/encrypt.rs EncrypterHalf::new seed `s`")
-    emit_bytes("tbcSeedDec", find_let_array(tbd, "s", "tbc_header/decrypt.rs"), "tbc_header/decrypt.rs DecrypterHalf::new seed `s`")
+    tbe = src("src/tbc_header/encrypt.rs")
+    tbd = src("src/tbc_header/decrypt.rs")
+    put("bytes", "tbcSeedEnc", lambda: find_let_array(tbe, "s", "tbc_header/encrypt.rs"), "tbc_header/encrypt.rs EncrypterHalf::new seed `s`")
+    put("bytes", "tbcSeedDec", lambda: find_let_array(tbd, "s", "tbc_header/decrypt.rs"), "tbc_header/decrypt.rs DecrypterHalf::new seed `s`")
 
-    wm = load(repo, "src/wrath_header/mod.rs")
-    emit_bytes("wrathS", find_array(wm, "S", "wrath_header/mod.rs"), "wrath_header/mod.rs S (client->server)")
-    emit_bytes("wrathR", find_array(wm, "R", "wrath_header/mod.rs"), "wrath_header/mod.rs R (server->client)")
-    we = load(repo, "src/wrath_header/encrypt.rs")
-    wd = load(repo, "src/wrath_header/decrypt.rs")
-    m = re.search(r'if\s+size\s*>\s*(0x[0-9A-Fa-f_]+|\d[\d_]*)', we)
-    if not m: die("`if size > <literal>` not found in wrath_header/encrypt.rs")
-    emit_nat("wrathLargeThreshold", parse_int(m.group(1)), "wrath_header/encrypt.rs: `if size > LIT` in encrypt_server_header")
-    m = re.search(r'fn\s+set_large_header\s*\(\s*v\s*:\s*u8\s*\)\s*->\s*u8\s*\{\s*v\s*\|\s*(0x[0-9A-Fa-f]+|\d+)\s*\}', we)
-    if not m: die("set_large_header body `v | LIT` not found")
-    emit_nat("wrathSetMask", parse_int(m.group(1)), "wrath_header/encrypt.rs set_large_header: v | LIT")
-    m = re.search(r'fn\s+clear_large_header\s*\(\s*v\s*:\s*u8\s*\)\s*->\s*u8\s*\{\s*v\s*&\s*(0x[0-9A-Fa-f]+|\d+)\s*\}', wd)
-    if not m: die("clear_large_header body `v & LIT` not found")
-    emit_nat("wrathClearMask", parse_int(m.group(1)), "wrath_header/decrypt.rs clear_large_header: v & LIT")
-    m = re.search(r'fn\s+large_header\s*\(\s*v\s*:\s*u8\s*\)\s*->\s*bool\s*\{\s*v\s*&\s*(0x[0-9A-Fa-f]+|\d+)\s*!=\s*0\s*\}', wd)
-    if not m: die("large_header body `v & LIT != 0` not found")
-    emit_nat("wrathTestMask", parse_int(m.group(1)), "wrath_header/decrypt.rs large_header: v & LIT != 0")
-    ic = load(repo, "src/wrath_header/inner_crypto/mod.rs")
-    emit_nat("wrathKeyLength", c.scalar(ic, "KEY_LENGTH", "inner_crypto/mod.rs"), "wrath_header/inner_crypto KEY_LENGTH")
-    m = re.search(r'let\s+mut\s+pad_data\s*=\s*\[\s*0_?u8\s*;\s*(\d+)\s*\]', ic)
-    if not m: die("pad_data drop length not found in inner_crypto/mod.rs")
-    emit_nat("wrathDrop", int(m.group(1)), "wrath_header/inner_crypto: keystream bytes discarded")
-    # which constant each of the four halves uses
-    def half_const(src, struct, what):
-        m = re.search(r'impl\s+' + struct + r'\s*\{.*?fn\s+new\s*\(.*?InnerCrypto::new\s*\(\s*session_key\s*,\s*&\s*(\w+)\s*\)', src, flags=re.S)
-        if not m: die("InnerCrypto::new(session_key, &X) not found for " + what)
-        return m.group(1)
-    emit_bool("wrathServerEncUsesR", half_const(we, "ServerEncrypterHalf", "ServerEncrypterHalf") == "R", "ServerEncrypterHalf::new keys with R")
-    emit_bool("wrathClientEncUsesS", half_const(we, "ClientEncrypterHalf", "ClientEncrypterHalf") == "S", "ClientEncrypterHalf::new keys with S")
-    emit_bool("wrathServerDecUsesS", half_const(wd, "ServerDecrypterHalf", "ServerDecrypterHalf") == "S", "ServerDecrypterHalf::new keys with S")
-    emit_bool("wrathClientDecUsesR", half_const(wd, "ClientDecrypterHalf", "ClientDecrypterHalf") == "R", "ClientDecrypterHalf::new keys with R")
+    wm = src("src/wrath_header/mod.rs")
+    put("bytes", "wrathS", lambda: find_array(wm, "S", "wrath_header/mod.rs"), "wrath_header/mod.rs S (client->server)")
+    put("bytes", "wrathR", lambda: find_array(wm, "R", "wrath_header/mod.rs"), "wrath_header/mod.rs R (server->client)")
+    we = src("src/wrath_header/encrypt.rs")
+    wd = src("src/wrath_header/decrypt.rs")
+    put("nat", "wrathLargeThreshold", lambda: rx(r'if\s+size\s*>\s*(0x[0-9A-Fa-f_]+|\d[\d_]*)\s*\{', we, "`if size > <literal> {` in wrath_header/encrypt.rs"),
+        "wrath_header/encrypt.rs: `if size > LIT` in encrypt_server_header")
+    put("nat", "wrathSetMask", lambda: rx(r'fn\s+set_large_header\s*\(\s*v\s*:\s*u8\s*\)\s*->\s*u8\s*\{\s*v\s*\|\s*(0x[0-9A-Fa-f]+|\d+)\s*\}', we, "set_large_header body `v | LIT`"),
+        "wrath_header/encrypt.rs set_large_header: v | LIT")
+    put("nat", "wrathClearMask", lambda: rx(r'fn\s+clear_large_header\s*\(\s*v\s*:\s*u8\s*\)\s*->\s*u8\s*\{\s*v\s*&\s*(0x[0-9A-Fa-f]+|\d+)\s*\}', wd, "clear_large_header body `v & LIT`"),
+        "wrath_header/decrypt.rs clear_large_header: v & LIT")
+    put("nat", "wrathTestMask", lambda: rx(r'fn\s+large_header\s*\(\s*v\s*:\s*u8\s*\)\s*->\s*bool\s*\{\s*v\s*&\s*(0x[0-9A-Fa-f]+|\d+)\s*!=\s*0\s*\}', wd, "large_header body `v & LIT != 0`"),
+        "wrath_header/decrypt.rs large_header: v & LIT != 0")
+    ic = src("src/wrath_header/inner_crypto/mod.rs")
+    put("nat", "wrathKeyLength", lambda: c.scalar(ic, "KEY_LENGTH", "inner_crypto/mod.rs"), "wrath_header/inner_crypto KEY_LENGTH")
+    put("nat", "wrathDrop", lambda: rx(r'let\s+mut\s+pad_data\s*=\s*\[\s*0_?u8\s*;\s*(\d+)\s*\]', ic, "pad_data drop length in inner_crypto/mod.rs", int),
+        "wrath_header/inner_crypto: keystream bytes discarded")
+    def half_const(text, struct):
+        return rx(r'impl\s+' + struct + r'\s*\{.*?fn\s+new\s*\(.*?InnerCrypto::new\s*\(\s*session_key\s*,\s*&\s*(\w+)\s*\)', text, "InnerCrypto::new(session_key, &X) of " + struct, str, re.S)
+    put("bool", "wrathServerEncUsesR", lambda: half_const(we, "ServerEncrypterHalf") == "R", "ServerEncrypterHalf::new keys with R")
+    put("bool", "wrathClientEncUsesS", lambda: half_const(we, "ClientEncrypterHalf") == "S", "ClientEncrypterHalf::new keys with S")
+    put("bool", "wrathServerDecUsesS", lambda: half_const(wd, "ServerDecrypterHalf") == "S", "ServerDecrypterHalf::new keys with S")
+    put("bool", "wrathClientDecUsesR", lambda: half_const(wd, "ClientDecrypterHalf") == "R", "ClientDecrypterHalf::new keys with R")
 
-    pin = load(repo, "src/pin.rs")
-    emit_nat("pinSaltSize", c.scalar(pin, "PIN_SALT_SIZE", "pin.rs"), "pin.rs PIN_SALT_SIZE")
-    emit_nat("pinHashSize", c.scalar(pin, "PIN_HASH_SIZE", "pin.rs"), "pin.rs PIN_HASH_SIZE")
-    emit_nat("minPinLength", c.scalar(pin, "MIN_PIN_LENGTH", "pin.rs"), "pin.rs MIN_PIN_LENGTH")
-    emit_nat("maxPinLength", c.scalar(pin, "MAX_PIN_LENGTH", "pin.rs"), "pin.rs MAX_PIN_LENGTH")
-    m = re.search(r'\*b\s*\+=\s*(0x[0-9A-Fa-f]+|\d+)\s*;', pin)
-    if not m: die("`*b += LIT` (ASCII offset) not found in pin.rs")
-    emit_nat("pinAsciiOffset", parse_int(m.group(1)), "pin.rs: ASCII offset added to remapped digits")
-    m = re.search(r'let\s+mut\s+grid\s*=\s*\[([^\]]*)\]', pin)
-    if not m: die("initial grid not found in pin.rs")
-    emit_bytes("pinInitialGrid", parse_array(m.group(1)), "pin.rs remap_pin_grid initial grid")
+    pin = src("src/pin.rs")
+    put("nat", "pinSaltSize", lambda: c.scalar(pin, "PIN_SALT_SIZE", "pin.rs"), "pin.rs PIN_SALT_SIZE")
+    put("nat", "pinHashSize", lambda: c.scalar(pin, "PIN_HASH_SIZE", "pin.rs"), "pin.rs PIN_HASH_SIZE")
+    put("nat", "minPinLength", lambda: c.scalar(pin, "MIN_PIN_LENGTH", "pin.rs"), "pin.rs MIN_PIN_LENGTH")
+    put("nat", "maxPinLength", lambda: c.scalar(pin, "MAX_PIN_LENGTH", "pin.rs"), "pin.rs MAX_PIN_LENGTH")
+    put("nat", "pinAsciiOffset", lambda: rx(r'\*b\s*\+=\s*(0x[0-9A-Fa-f]+|\d+)\s*;', pin, "`*b += LIT` (ASCII offset) in pin.rs"), "pin.rs: ASCII offset added to remapped digits")
+    put("bytes", "pinInitialGrid", lambda: rx(r'let\s+mut\s+grid\s*=\s*\[([^\]]*)\]', pin, "initial grid in pin.rs", parse_array), "pin.rs remap_pin_grid initial grid")
 
-    mc = load(repo, "src/matrix_card.rs")
-    emit_nat("minMatrixCardValue", c.scalar(mc, "MIN_MATRIX_CARD_VALUE", "matrix_card.rs"), "matrix_card.rs MIN_MATRIX_CARD_VALUE")
-    emit_nat("maxMatrixCardValue", c.scalar(mc, "MAX_MATRIX_CARD_VALUE", "matrix_card.rs"), "matrix_card.rs MAX_MATRIX_CARD_VALUE")
+    mc = src("src/matrix_card.rs")
+    put("nat", "minMatrixCardValue", lambda: c.scalar(mc, "MIN_MATRIX_CARD_VALUE", "matrix_card.rs"), "matrix_card.rs MIN_MATRIX_CARD_VALUE")
+    put("nat", "maxMatrixCardValue", lambda: c.scalar(mc, "MAX_MATRIX_CARD_VALUE", "matrix_card.rs"), "matrix_card.rs MAX_MATRIX_CARD_VALUE")
 
-    van = load(repo, "src/vanilla_header/mod.rs")
-    emit_nat("vanillaClientHeaderLength", c.scalar(van, "CLIENT_HEADER_LENGTH", "vanilla_header/mod.rs"), "vanilla_header CLIENT_HEADER_LENGTH")
-    emit_nat("vanillaServerHeaderLength", c.scalar(van, "SERVER_HEADER_LENGTH", "vanilla_header/mod.rs"), "vanilla_header SERVER_HEADER_LENGTH")
+    van = src("src/vanilla_header/mod.rs")
+    put("nat", "vanillaClientHeaderLength", lambda: c.scalar(van, "CLIENT_HEADER_LENGTH", "vanilla_header/mod.rs"), "vanilla_header CLIENT_HEADER_LENGTH")
+    put("nat", "vanillaServerHeaderLength", lambda: c.scalar(van, "SERVER_HEADER_LENGTH", "vanilla_header/mod.rs"), "vanilla_header SERVER_HEADER_LENGTH")
     c2 = Consts()
-    emit_nat("wrathClientHeaderLength", c2.scalar(wm, "CLIENT_HEADER_LENGTH", "wrath_header/mod.rs"), "wrath_header CLIENT_HEADER_LENGTH")
-    emit_nat("wrathServerHeaderMinLength", c2.scalar(wm, "SERVER_HEADER_MINIMUM_LENGTH", "wrath_header/mod.rs"), "wrath_header SERVER_HEADER_MINIMUM_LENGTH")
-    emit_nat("wrathServerHeaderMaxLength", c2.scalar(wm, "SERVER_HEADER_MAXIMUM_LENGTH", "wrath_header/mod.rs"), "wrath_header SERVER_HEADER_MAXIMUM_LENGTH")
+    put("nat", "wrathClientHeaderLength", lambda: c2.scalar(wm, "CLIENT_HEADER_LENGTH", "wrath_header/mod.rs"), "wrath_header CLIENT_HEADER_LENGTH")
+    put("nat", "wrathServerHeaderMinLength", lambda: c2.scalar(wm, "SERVER_HEADER_MINIMUM_LENGTH", "wrath_header/mod.rs"), "wrath_header SERVER_HEADER_MINIMUM_LENGTH")
+    put("nat", "wrathServerHeaderMaxLength", lambda: c2.scalar(wm, "SERVER_HEADER_MAXIMUM_LENGTH", "wrath_header/mod.rs"), "wrath_header SERVER_HEADER_MAXIMUM_LENGTH")
 
-    # the modulus used by the two recurrence ciphers (`% SESSION_KEY_LENGTH`, `% PROOF_LENGTH`)
+    # the recurrence ciphers: key byte index and the modulus of the index update
     for rel, nm in [("src/vanilla_header/encrypt.rs", "vanillaEncMod"), ("src/vanilla_header/decrypt.rs", "vanillaDecMod"),
                     ("src/tbc_header/encrypt.rs", "tbcEncMod"), ("src/tbc_header/decrypt.rs", "tbcDecMod")]:
-        s = load(repo, rel)
-        m = re.search(r'\*index\s*=\s*\(\s*\*index\s*\+\s*1\s*\)\s*%\s*([A-Za-z0-9_x]+)\s*;', s)
-        if not m: die("index update `*index = (*index + 1) % X` not found in " + rel)
-        emit_nat(nm, c.eval(m.group(1)), rel + ": modulus of the index update")
+        text = src(rel)
+        def modulus(text=text, rel=rel):
+            if not re.search(r'session_key\[\s*\*index\s+as\s+usize\s*\]', text):
+                die("key byte selection `session_key[*index as usize]` in " + rel)
+            return rx(r'\*index\s*=\s*\(\s*\*index\s*\+\s*1\s*\)\s*%\s*([A-Za-z0-9_x]+)\s*;', text, "index update `*index = (*index + 1) % X` in " + rel, c.eval)
+        put("nat", nm, modulus, rel + ": modulus of the index update")
 
-    # syntactic facts used by C12: no interior mutability / shared statics in the header modules
     bad = re.compile(r'\b(Cell|RefCell|Mutex|RwLock|Atomic\w*|static\s+mut|thread_local!|UnsafeCell|Rc|Arc|lazy_static|OnceCell|OnceLock)\b')
     hits = []
     for rel in ["src/vanilla_header/mod.rs", "src/vanilla_header/encrypt.rs", "src/vanilla_header/decrypt.rs",
                 "src/tbc_header/mod.rs", "src/tbc_header/encrypt.rs", "src/tbc_header/decrypt.rs",
                 "src/wrath_header/mod.rs", "src/wrath_header/encrypt.rs", "src/wrath_header/decrypt.rs",
                 "src/wrath_header/inner_crypto/mod.rs", "src/rc4.rs"]:
-        s = load(repo, rel)
-        if bad.search(s) or re.search(r'\bstatic\b', s):
+        text = src(rel)
+        if not text or bad.search(text) or re.search(r'\bstatic\b', text):
             hits.append(rel)
-    emit_bool("headerModulesHaveNoSharedState", not hits, "no Cell/RefCell/Mutex/Atomic*/static/thread_local!/Rc/Arc in header modules and rc4.rs" + (" — found in: " + ", ".join(hits) if hits else ""))
+    put("bool", "headerModulesHaveNoSharedState", lambda: not hits, "no Cell/RefCell/Mutex/Atomic*/static/thread_local!/Rc/Arc in header modules and rc4.rs" + (" — found in: " + ", ".join(hits) if hits else ""))
+    # the SRP modules hold no state between calls either (C01/C03 quantify over histories of calls implicitly)
+    hits2 = []
+    for rel in ["src/primes.rs", "src/bigint.rs", "src/key.rs", "src/srp_internal.rs", "src/srp_internal_client.rs", "src/server.rs", "src/client.rs", "src/normalized_string.rs"]:
+        text = src(rel)
+        if not text or bad.search(text) or re.search(r'\bstatic\b', text):
+            hits2.append(rel)
+    put("bool", "srpModulesHaveNoSharedState", lambda: not hits2, "no Cell/RefCell/Mutex/Atomic*/static/thread_local!/Rc/Arc in the SRP modules" + (" — found in: " + ", ".join(hits2) if hits2 else ""))
 
+    # field order of every hash computation (translator leg for C02/C03/C05/C06/C08/C09/C16/C17/C18)
+    srpc = src("src/srp_internal_client.rs")
+    vint = src("src/vanilla_header/internal.rs")
+    integ = src("src/integrity.rs")
+    i = mc.find("impl MatrixCardVerifier")
+    mcv = mc[i:] if i >= 0 else ""
+    for lname, text, fname, what in [
+            ("layoutCalculateX", srpi, "calculate_x", "srp_internal.rs"),
+            ("layoutCalculateU", srpi, "calculate_u", "srp_internal.rs"),
+            ("layoutServerProof", srpi, "calculate_server_proof", "srp_internal.rs"),
+            ("layoutXorHash", srpi, "calculate_xor_hash", "srp_internal.rs"),
+            ("layoutClientProof", srpi, "calculate_client_proof", "srp_internal.rs"),
+            ("layoutReconnectProof", srpi, "calculate_reconnect_proof", "srp_internal.rs"),
+            ("layoutClientProofCustom", srpc, "calculate_client_proof_with_custom_value", "srp_internal_client.rs"),
+            ("layoutWorldProof", vint, "calculate_world_server_proof", "vanilla_header/internal.rs"),
+            ("layoutIntegrityGeneric", integ, "login_integrity_check_generic", "integrity.rs"),
+            ("layoutIntegrityMac", integ, "login_integrity_check_mac", "integrity.rs"),
+            ("layoutIntegrityChecksum", integ, "checksum", "integrity.rs"),
+            ("layoutIntegrityFinalise", integ, "finalise", "integrity.rs"),
+            ("layoutPinHash", pin, "calculate_hash", "pin.rs"),
+            ("layoutMatrixCardNew", mcv, "new", "matrix_card.rs MatrixCardVerifier::new"),
+            ("layoutMatrixCardEnter", mcv, "enter_value", "matrix_card.rs MatrixCardVerifier::enter_value"),
+            ("layoutTbcEncKey", tbe, "new", "tbc_header/encrypt.rs"),
+            ("layoutTbcDecKey", tbd, "new", "tbc_header/decrypt.rs"),
+            ("layoutWrathInnerNew", ic, "new", "wrath_header/inner_crypto/mod.rs")]:
+        put("layout", lname, lambda text=text, fname=fname, what=what: hash_layout(text, fname, what),
+            "%s: arguments fed to each hash object of `%s`, in source order" % (what, fname))
+
+    L.append("/-- constants the translator could not find in the source (placeholders were emitted for them) -/\ndef missingConstants : List String := [%s]"
+             % ", ".join(lean_str(m.split(":")[0]) for m in missing))
     text = ("/- GENERATED by tools/gen_constants.py from the Rust sources on every run. Do not edit. -/\n"
             "namespace WowSrp.Gen\n\n" + "\n\n".join(L) + "\n\nend WowSrp.Gen\n")
     old = open(out).read() if os.path.exists(out) else None
@@ -212,6 +324,10 @@ def main():
         print("gen_constants: wrote", out)
     else:
         print("gen_constants: unchanged")
+    if missing:
+        for m in missing:
+            print("gen_constants: BROKEN TIE (placeholder emitted): " + m, file=sys.stderr)
+        sys.exit(3)
 
 if __name__ == "__main__":
     main()
